@@ -154,7 +154,7 @@ def rpcPortmap (s : RpcSt) (ip : Ip) (port : Nat) : Except Site Bytes :=
     | .error e, _, _ => .error e
     | _, .error e, _ => .error e
     | _, _, .error e => .error e
-  else .ok [0, 0, 0, 5]
+  else .ok [0, 0, 0, 3]
 
 /-- `build_repl` -/
 def rpcBuild (s : RpcSt) (ci : ClientInfo) : Except Site Bytes :=
